@@ -126,6 +126,17 @@ impl Monitor for C06 {
             let mut pop_frame = false;
             let mut seek_to: Option<usize> = None;
             match k {
+                0 if !frames.is_empty() && rng.chance(1, 3) => {
+                    // the input that is open right now, opened once more (the very same view): a new level that starts
+                    // at its first bit; close-bitstr comes back to where this level was
+                    let f = frames.last().unwrap();
+                    let cur = xs.get_var_value("input").ok().cloned().unwrap_or(Cell::Nil);
+                    args.push(cur);
+                    word = "open-bitstr".into();
+                    want = Want::Nothing;
+                    new_frame = Some(Frame { bits: f.bits.clone(), lo: f.lo, pos: 0 });
+                    obs.count("open-bitstr:the-current-input-again");
+                }
                 0 | 1 => {
                     let (c, bits) = fresh(&mut rng);
                     args.push(c);
@@ -250,9 +261,24 @@ impl Monitor for C06 {
                             pat.push(1);
                         }
                     }
+                    // the pattern as a fresh value, as a slice cut out of a longer buffer (a tag read earlier and expected
+                    // again), or as a piece of the very input being parsed, taken a few bits away from the cursor
+                    let mut from_input: Option<Xbitstr> = None;
+                    if rng.chance(1, 3) && n > 0 && f.bits.len() >= n {
+                        if let Some(inp) = xs.get_var_value("input").ok().and_then(|c| c.bitstr().ok().cloned()) {
+                            let q = (f.pos + rng.below(9)).saturating_sub(4).min(f.bits.len() - n);
+                            if let Some(v) = inp.substr(inp.start() + q, inp.start() + q + n) {
+                                pat = f.bits[q..q + n].to_vec();
+                                from_input = Some(v);
+                                obs.count("magic:pattern-is-a-piece-of-the-input");
+                            }
+                        }
+                    }
                     let ok = pat.len() <= remain && pat[..] == f.bits[f.pos..f.pos + pat.len()];
-                    // the pattern as a fresh value or as a slice cut out of a longer buffer (a tag read earlier and expected again)
-                    let pcell = if rng.flip() { obs.count("magic:pattern-is-slice"); crate::mon::c04::fresh_from_model(&pat, &mut rng) } else { bits_to_bitstr(&pat) };
+                    let pcell = match from_input {
+                        Some(v) => v,
+                        None => if rng.flip() { obs.count("magic:pattern-is-slice"); crate::mon::c04::fresh_from_model(&pat, &mut rng) } else { bits_to_bitstr(&pat) },
+                    };
                     args.push(Cell::Bitstr(pcell));
                     word = "magic".into();
                     if ok {
